@@ -10,7 +10,7 @@ import functools
 
 from hypothesis import HealthCheck, Phase, given, seed, settings, strategies as st
 
-from pbt import hist, snap
+from pbt import hist, prog, snap
 from pbt.core import Collector, HarnessError, mksig
 
 ID = "C01"
@@ -151,7 +151,63 @@ def run_history(h, on_violation, on_step=None):
     return live
 
 
+# ---- the partial query a join() call returns (Joiner): each way to finish it gives an independent query ---------------------------------
+
+JOINER_FINISH = ("on_a", "on_b", "on_field", "using", "cross")
+
+
+def joiner_cases():
+    for cls in prog.CLS_NAMES:
+        for base in ("select", "update"):
+            for first in JOINER_FINISH:
+                for second in JOINER_FINISH:
+                    yield {"family": "joiner", "cls": cls, "base": base, "first": first, "second": second}
+
+
+def check_joiner(case):
+    import pypika_tortoise as P
+
+    Q = prog.query_cls(case["cls"])
+    t, u = P.Table("t"), P.Table("u")
+
+    def start():
+        return Q.from_(t).select(t.a) if case["base"] == "select" else Q.update(t).set(t.a, 1)
+
+    def finish(j, how):
+        if how == "on_a":
+            return j.on(t.a == u.a)
+        if how == "on_b":
+            return j.on((t.b == u.b) & (u.c == 5))
+        if how == "on_field":
+            return j.on_field("k")
+        if how == "using":
+            return j.using("k2")
+        return j.cross()
+
+    try:
+        j = start().join(u)
+        q1 = finish(j, case["first"])
+        before = snap.render_snapshot(q1)
+        q2 = finish(j, case["second"])
+        fresh1 = snap.render_snapshot(finish(start().join(u), case["first"]))
+        fresh2 = snap.render_snapshot(finish(start().join(u), case["second"]))
+    except Exception as e:
+        return [(mksig("joiner", "raises", type(e).__name__), repr(e))]
+    out = []
+    if q1 is q2:
+        out.append((mksig("joiner", "same_object"), "finishing one join() result twice (%s, then %s) returned the very same query object" % (case["first"], case["second"])))
+    after = snap.render_snapshot(q1)
+    if after != before or before != fresh1:
+        d = snap.diff_keys(after, before) or snap.diff_keys(before, fresh1)
+        out.append((mksig("joiner", "earlier_query_changed"), "the query made by %s changed when the same join() result was finished again by %s: %r -> %r" % (case["first"], case["second"], before.get(d[0]), after.get(d[0]))))
+    elif snap.render_snapshot(q2) != fresh2:
+        out.append((mksig("joiner", "second_query_differs"), "the second query (%s) is not what a fresh join() gives" % case["second"]))
+    return out
+
+
 def check_case(case):
+    if case.get("family") == "joiner":
+        return check_joiner(case)
     out = []
     seen = set()
 
@@ -166,6 +222,8 @@ def check_case(case):
 
 def valid_case(case):
     try:
+        if case.get("family") == "joiner":
+            return case in list(joiner_cases())
         ops = case["ops"]
         n = 0
         for op in ops:
@@ -186,7 +244,7 @@ def valid_case(case):
 
 def shards(tier, sd):
     n = 8 if tier == "quick" else 32
-    return [(tier, sd * 1000 + k, k) for k in range(n)] + [("matrix:" + tier, sd * 1000 + 700 + k, k) for k in range(8)]
+    return [(tier, sd * 1000 + k, k) for k in range(n)] + [("matrix:" + tier, sd * 1000 + 700 + k, k) for k in range(8)] + [("joiner", 0, 0)]
 
 
 @functools.lru_cache(maxsize=None)
@@ -238,6 +296,13 @@ def run_shard(shard):
     tier, sd, k = shard
     if tier.startswith("matrix:"):
         return run_matrix_shard(tier, sd, k)
+    if tier == "joiner":
+        col = Collector()
+        for case in joiner_cases():
+            col.case(case, True, classes=("joiner",))
+            for sig, detail in check_joiner(case):
+                col.violation(sig, case, detail)
+        return col
     col = Collector()
     nex = 500 if tier == "quick" else 4000
     fams = hist.FAMILIES
